@@ -58,6 +58,7 @@ def left (rest : List Nat) : String := if rest.isEmpty then "" else s!" left={re
 `next g=<i> r=<r1,r2,..>`                            → outcome and state
 `burst g=<i> n=<calls> r=<reading>`                  → digest of `n` calls reading `r`
 `stream g=<i> n=<calls> r=<r1,r2,..>`                → digest of `n` calls sharing the readings
+`tr <fn> <args…>`                                    → value of the translated `Gen.C09.Tr.<fn>`
 -/
 def drvStep (d : DSt) (line : String) : DSt × String :=
   let ws := words line
@@ -97,6 +98,11 @@ def drvStep (d : DSt) (line : String) : DSt × String :=
         (dput d g s', s!"{a.show} {showSt s'}{left rest}")
       | none => (d, "bad-op")
     | _, _, _ => (d, "bad-op")
+  | "tr" :: fn :: args =>
+    -- the translated source (Gen/C09.lean `Tr`) evaluated on the given arguments
+    match args.mapM int? with
+    | some a => (match Gen.C09.Tr.eval fn a with | some s => (d, s) | none => (d, "bad-op"))
+    | none => (d, "bad-op")
   | _ => (d, "bad-op")
 
 def drvMain : IO Unit := run ([] : DSt) drvStep
